@@ -12,10 +12,11 @@
   Parameters (trusted shape, proved for the concrete instance): the tagged hash returns 32 bytes (`Hash32`; proved for
   SHA-256: `glue_hash32`), and a key made by `tweakAdd` passes the oracle's `tweakCheck` with the reported parity
   (`Agree`, `AgreeTce`; proved for `Crypto.xonlyTweakAdd` vs `Glue.tapOracle` / `Glue.tapCtx`: `glue_agree`, `glue_agreeTce`).
-  `bech32m : hrp → witness version → program → String` is a parameter of `Tap.run` (Model/Encodings.lean is written
-  elsewhere): the address statements say `address = bech32m hrp 1 outputKey`.
-  TODO(integration, sighash clause): "the signature hash tap reports is the BIP341/342 digest of the transaction it
-  outputs" needs Model/Sighash.lean; `Tap.txWitness` is the witness stack tap writes into the transaction it hashes.
+  `bech32m : hrp → witness version → program → Option String` is a parameter of `Tap.run` (`none` = the encoder's assertion on
+  an upper-case prefix); the concrete one is `Tap.bech32mAddress` = `bech32::Encode(BECH32M, ..)` of Model/Encodings.lean, whose
+  agreement with BIP350 is C14's `bech32_encode_spec`.  The address statements say `bech32m hrp 1 outputKey = some address`.
+  Transaction part: `Tap.setWitness`, `Tap.txWitness`, `Tap.calcSighash` (= `configure_tx_txin` of Model/Spend.lean, then
+  `Instance::calc_sighash` on top of Model/Sighash.lean), `Tap.runTx`; helper lemmas in Lemmas/TapSpend.lean.
 
   All statements are for ALL lists of scripts and ALL leaf indices.  Property theorems (section "Property theorems"):
     tap_tree_is_bip341_tree          any n ≥ 1: the loops end with ONE tree; its stored root hash is the BIP341 Merkle
@@ -34,13 +35,27 @@
                                      internal key and the root of a script tree with exactly the given leaves
     tap_run_ok                       totality on the intended domain (32-byte key that parses, 1..1024 valid scripts,
                                      index in range)
+    tap_sighash_is_bip341            single-input spend of the P2TR output of the printed key: `configure_tx_txin` accepts the
+                                     transaction tap builds and the reported signature hash is `Spec.bip341Digest sha256 tx' 0 0x00
+                                     [spent] none ext` of the transaction it outputs (ext = none on the key path, TapLeaf hash of the
+                                     printed script with code separator position 0xffffffff on the script path); `runTx` returns it
+    tap_sighash_multi_input_aborts   any other number of inputs: refused or the `Init` assertion (the documented limitation)
+    tap_roundtrip_keypath            a 64-byte signature valid under the output key over the reported hash, passed back with --sig:
+                                     the transaction tap outputs has witness [sig] and `Spec.verifyScript` accepts the input
+    tap_roundtrip_scriptpath         the same for a leaf `<32-byte key> OP_CHECKSIG` spent without arguments: witness
+                                     [sig, script, control], accepted by `Spec.verifyScript`
     *_concrete                       the same for the SHA-256 / secp256k1 instance, with no hypothesis left
-  plus an `example` on five scripts (two equal, one empty, the leftover leaf spent) showing that the hypotheses are
-  satisfiable together.
+  plus `example`s on five scripts (two equal, one empty, the leftover leaf spent; then the same with --tx and --txin) showing that
+  the hypotheses are satisfiable together.
+  Hypotheses worth noting: the spent output must BE `OP_1 <output key>` (tap itself only checks that the scriptPubKey ends with
+  the key, tap.cpp:370-380); the witness limits of `configure_tx_txin` (items ≤ 520 bytes, < 1000 arguments); `toBool outputKey`
+  in the round trip (a key is never all zero; stated because `Tap.Ctx` is abstract).
 -/
 import Btcdeb.Model.Tap
 import Btcdeb.Spec.TapTree
 import BtcdebProofs.Lemmas.TapTree
+import BtcdebProofs.Lemmas.TapSpend
+import BtcdebProofs.Properties.C05
 namespace Btcdeb.Proofs.C06
 open Btcdeb Btcdeb.Model Btcdeb.Model.Tap Btcdeb.Spec Btcdeb.Proofs.TapTree
 
@@ -70,7 +85,7 @@ def WF (cx : Tap.Ctx) (scripts : List Bytes) : Node → Prop
   | .leaf i h => ∃ s, scripts[i]? = some s ∧ h = leafHash cx s
   | .branch l r h => WF cx scripts l ∧ WF cx scripts r ∧ h = branchHash cx l.hash r.hash
 
-theorem compactSize_eq_varint (n : Nat) : compactSize n = varint n := rfl
+theorem compactSize_eq_varint (n : Nat) : Model.compactSize n = varint n := rfl
 
 theorem leafHash_eq {cx : Tap.Ctx} {o : TapOracle} (hag : Agree cx o) (s : Bytes) :
     leafHash cx s = tapLeafHash o 0xc0 s := by
@@ -667,15 +682,16 @@ theorem tce_accepts {cx : Tap.Ctx} {tc : TapCtx} (hag : AgreeTce cx tc) (h32 : H
 /-! ## The tool as a whole (`Tap.run`) -/
 
 /-- what a successful run went through -/
-theorem run_inv {cx : Tap.Ctx} {bech : String → Nat → Bytes → String} {hrp : String} {internal : Bytes}
+theorem run_inv {cx : Tap.Ctx} {bech : String → Nat → Bytes → Option String} {hrp : String} {spk : Option Bytes} {internal : Bytes}
     {scripts : List Bytes} {sel : Option (Nat × List Bytes)} {out : Output}
-    (h : run cx bech hrp internal scripts sel = .ok out) :
-    ∃ root ctl q odd, internal.length = 32 ∧ 1 ≤ scripts.length ∧ scripts.length ≤ 1024 ∧
+    (h : run cx bech hrp spk internal scripts sel = .ok out) :
+    ∃ root ctl q odd address, internal.length = 32 ∧ 1 ≤ scripts.length ∧ scripts.length ≤ 1024 ∧
       indexOutOfRange sel scripts.length = false ∧
       firstInvalid 0 scripts = none ∧ buildTree cx scripts = some root ∧ controlTail internal root sel = .ok ctl ∧
       cx.xonlyParse internal = true ∧
       cx.tweakAdd internal (cx.taggedHash "TapTweak" (internal ++ root.hash)) = some (q, odd) ∧
-      out = finish bech hrp scripts root.hash (cx.taggedHash "TapTweak" (internal ++ root.hash)) q odd ctl sel := by
+      spkMismatch spk q = false ∧ bech hrp 1 q = some address ∧
+      out = finish address scripts root.hash (cx.taggedHash "TapTweak" (internal ++ root.hash)) q odd ctl sel := by
   unfold run at h
   split at h; · cases h
   next hk =>
@@ -694,6 +710,10 @@ theorem run_inv {cx : Tap.Ctx} {bech : String → Nat → Bytes → String} {hrp
   next hx =>
   split at h; · cases h
   next q odd ht =>
+  split at h; · cases h
+  next hm =>
+  split at h; · cases h
+  next address ha =>
   simp only [Except.ok.injEq] at h
   have hcount : 1 ≤ scripts.length ∧ scripts.length ≤ 1024 := by
     rcases Nat.lt_or_ge scripts.length 1 with h1 | h1
@@ -701,7 +721,8 @@ theorem run_inv {cx : Tap.Ctx} {bech : String → Nat → Bytes → String} {hrp
     · rcases Nat.lt_or_ge 1024 scripts.length with h2 | h2
       · exact absurd (by simp [h2]) hc
       · exact ⟨h1, h2⟩
-  exact ⟨root, ctl, q, odd, by simpa using hk, hcount.1, hcount.2, by simpa using hi, hv, hb, hctl, by simpa using hx, ht, h.symm⟩
+  exact ⟨root, ctl, q, odd, address, by simpa using hk, hcount.1, hcount.2, by simpa using hi, hv, hb, hctl, by simpa using hx, ht,
+    by simpa using hm, ha, h.symm⟩
 
 theorem controlTail_sel_inv {internal : Bytes} {root : Node} {i : Nat} {args : List Bytes} {ctl : Bytes}
     (h : controlTail internal root (some (i, args)) = .ok ctl) :
@@ -767,12 +788,12 @@ theorem tap_control_verifies_any_count {cx : Tap.Ctx} {o : TapOracle} (hag : Agr
     the script it prints is script `i`, the witness is the spend arguments followed by script and control block, and
     (control block, script) verify under BIP341 against the output key it prints (= the program of the address). -/
 theorem tap_control_verifies {cx : Tap.Ctx} {o : TapOracle} (hag : Agree cx o) (h32 : Hash32 cx)
-    {bech : String → Nat → Bytes → String} {hrp : String} {internal : Bytes} {scripts : List Bytes} {i : Nat}
-    {args : List Bytes} {out : Output} (h : run cx bech hrp internal scripts (some (i, args)) = .ok out) :
+    {bech : String → Nat → Bytes → Option String} {hrp : String} {spk : Option Bytes} {internal : Bytes} {scripts : List Bytes} {i : Nat}
+    {args : List Bytes} {out : Output} (h : run cx bech hrp spk internal scripts (some (i, args)) = .ok out) :
     ∃ control script, out.control = some control ∧ out.script = some script ∧ scripts[i]? = some script ∧
-      out.witness = args ++ [script, control] ∧ out.address = bech hrp 1 out.outputKey ∧
+      out.witness = args ++ [script, control] ∧ bech hrp 1 out.outputKey = some out.address ∧
       bip341Valid o control script out.outputKey = true := by
-  obtain ⟨root, ctl, q, odd, hk, hn1, hn2, _, _, hb, hctl, _, ht, rfl⟩ := run_inv h
+  obtain ⟨root, ctl, q, odd, address, hk, hn1, hn2, _, _, hb, hctl, _, ht, _, haddr, rfl⟩ := run_inv h
   obtain ⟨path, hp, rfl⟩ := controlTail_sel_inv hctl
   have hne : scripts ≠ [] := by intro h0; subst h0; simp at hn1
   obtain ⟨root', hb', hw, _, hh⟩ := buildTree_spec cx scripts hne
@@ -780,7 +801,7 @@ theorem tap_control_verifies {cx : Tap.Ctx} {o : TapOracle} (hag : Agree cx o) (
   have hlen : path.length ≤ 128 :=
     Nat.le_trans (prove_length_le i hp) (Nat.le_trans (hh 10 (by simpa using hn2)) (by decide))
   obtain ⟨s, hs, hv⟩ := control_valid hag h32 hw hp hlen hk ht
-  refine ⟨_, _, rfl, rfl, ?_, rfl, rfl, ?_⟩
+  refine ⟨_, _, rfl, rfl, ?_, rfl, haddr, ?_⟩
   · simp [List.getD, hs]
   · simpa [finish, List.getD, hs] using hv
 
@@ -788,12 +809,12 @@ theorem tap_control_verifies {cx : Tap.Ctx} {o : TapOracle} (hag : Agree cx o) (
     as the witness program, script) and calling `Iterate()` until it stops answering `Processing` ends in `Done`
     (for any bound on the number of calls above the path length). -/
 theorem tap_accepted_by_debugger {cx : Tap.Ctx} {tc : TapCtx} (hag : AgreeTce cx tc) (h32 : Hash32 cx)
-    {bech : String → Nat → Bytes → String} {hrp : String} {internal : Bytes} {scripts : List Bytes} {i : Nat}
-    {args : List Bytes} {out : Output} (h : run cx bech hrp internal scripts (some (i, args)) = .ok out) :
+    {bech : String → Nat → Bytes → Option String} {hrp : String} {spk : Option Bytes} {internal : Bytes} {scripts : List Bytes} {i : Nat}
+    {args : List Bytes} {out : Output} (h : run cx bech hrp spk internal scripts (some (i, args)) = .ok out) :
     ∃ control script, out.control = some control ∧ out.script = some script ∧
       ∀ fuel, (control.length - 33) / 32 < fuel →
         tceRun tc fuel (Tce.init tc control out.outputKey script) = .done := by
-  obtain ⟨root, ctl, q, odd, hk, hn1, hn2, _, _, hb, hctl, _, ht, rfl⟩ := run_inv h
+  obtain ⟨root, ctl, q, odd, address, hk, hn1, hn2, _, _, hb, hctl, _, ht, _, haddr, rfl⟩ := run_inv h
   obtain ⟨path, hp, rfl⟩ := controlTail_sel_inv hctl
   have hne : scripts ≠ [] := by intro h0; subst h0; simp at hn1
   obtain ⟨root', hb', hw, _, _⟩ := buildTree_spec cx scripts hne
@@ -808,10 +829,10 @@ theorem tap_accepted_by_debugger {cx : Tap.Ctx} {tc : TapCtx} (hag : AgreeTce cx
 /-- **Address.**  For a valid leaf index the address, the output key, its parity, the Merkle root and the tweak do
     not depend on whether a leaf is selected for spending, nor on which leaf or with which arguments: the runs
     succeed or fail alike and agree on all of these. -/
-theorem tap_address_independent_of_selection (cx : Tap.Ctx) (bech : String → Nat → Bytes → String) (hrp : String)
-    (internal : Bytes) (scripts : List Bytes) (i : Nat) (args : List Bytes) (hi : i < scripts.length) :
-    (run cx bech hrp internal scripts (some (i, args))).map (fun o => (o.address, o.outputKey, o.odd, o.root, o.tweak)) =
-    (run cx bech hrp internal scripts none).map (fun o => (o.address, o.outputKey, o.odd, o.root, o.tweak)) := by
+theorem tap_address_independent_of_selection (cx : Tap.Ctx) (bech : String → Nat → Bytes → Option String) (hrp : String)
+    (spk : Option Bytes) (internal : Bytes) (scripts : List Bytes) (i : Nat) (args : List Bytes) (hi : i < scripts.length) :
+    (run cx bech hrp spk internal scripts (some (i, args))).map (fun o => (o.address, o.outputKey, o.odd, o.root, o.tweak)) =
+    (run cx bech hrp spk internal scripts none).map (fun o => (o.address, o.outputKey, o.odd, o.root, o.tweak)) := by
   unfold run
   split; · rfl
   split; · rfl
@@ -829,17 +850,19 @@ theorem tap_address_independent_of_selection (cx : Tap.Ctx) (bech : String → N
   simp only [controlTail, hp]
   split; · rfl
   split; · rfl
+  split; · rfl
+  split; · rfl
   rfl
 
 /-- **Output key.**  Whenever `tap` succeeds (with or without a selected leaf), the address it prints is
     `bech32m(hrp, 1, q)` where `q` (with the reported parity) is the BIP341 output key of the internal key and of the
     Merkle root of a BIP341 script tree whose leaves are exactly the given scripts, in order. -/
 theorem tap_address_is_bip341_output_key {cx : Tap.Ctx} {o : TapOracle} (hag : Agree cx o)
-    {bech : String → Nat → Bytes → String} {hrp : String} {internal : Bytes} {scripts : List Bytes}
-    {sel : Option (Nat × List Bytes)} {out : Output} (h : run cx bech hrp internal scripts sel = .ok out) :
+    {bech : String → Nat → Bytes → Option String} {hrp : String} {spk : Option Bytes} {internal : Bytes} {scripts : List Bytes}
+    {sel : Option (Nat × List Bytes)} {out : Output} (h : run cx bech hrp spk internal scripts sel = .ok out) :
     ∃ tree : TapTree, tree.leaves = scripts.map (fun s => (0xc0, s)) ∧ tree.height ≤ 10 ∧ out.root = tree.root o ∧
-      isOutputKey o internal (tree.root o) out.outputKey out.odd = true ∧ out.address = bech hrp 1 out.outputKey := by
-  obtain ⟨root, ctl, q, odd, hk, hn1, hn2, _, _, hb, _, _, ht, rfl⟩ := run_inv h
+      isOutputKey o internal (tree.root o) out.outputKey out.odd = true ∧ bech hrp 1 out.outputKey = some out.address := by
+  obtain ⟨root, ctl, q, odd, address, hk, hn1, hn2, _, _, hb, _, _, ht, _, haddr, rfl⟩ := run_inv h
   have hne : scripts ≠ [] := by intro h0; subst h0; simp at hn1
   obtain ⟨root', hb', hroot, hleaves, hh⟩ := tap_tree_is_bip341_tree hag scripts hne
   rw [hb] at hb'; cases hb'
@@ -850,16 +873,17 @@ theorem tap_address_is_bip341_output_key {cx : Tap.Ctx} {o : TapOracle} (hag : A
   · have := hag.tweak _ _ _ _ ht
     rw [← hag.hash, hroot] at this
     cases sel <;> simpa [isOutputKey, finish] using this
-  · cases sel <;> rfl
+  · cases sel <;> exact haddr
 
 /-- **Totality.**  With a 32-byte internal key that parses and can be tweaked, 1..1024 scripts that all pass
     `HasValidOps`, and a leaf index in range (or none), the tool succeeds. -/
-theorem tap_run_ok (cx : Tap.Ctx) (bech : String → Nat → Bytes → String) (hrp : String) (internal : Bytes)
+theorem tap_run_ok (cx : Tap.Ctx) (bech : String → Nat → Bytes → Option String) (hrp : String) (internal : Bytes)
     (scripts : List Bytes) (sel : Option (Nat × List Bytes)) (hk : internal.length = 32)
     (hn1 : 1 ≤ scripts.length) (hn2 : scripts.length ≤ 1024) (hi : ∀ i a, sel = some (i, a) → i < scripts.length)
     (hv : firstInvalid 0 scripts = none) (hx : cx.xonlyParse internal = true)
-    (ht : ∀ r, (cx.tweakAdd internal (cx.taggedHash "TapTweak" (internal ++ r))).isSome) :
-    ∃ out, run cx bech hrp internal scripts sel = .ok out := by
+    (ht : ∀ r, (cx.tweakAdd internal (cx.taggedHash "TapTweak" (internal ++ r))).isSome)
+    (hb32 : ∀ q, (bech hrp 1 q).isSome) :
+    ∃ out, run cx bech hrp none internal scripts sel = .ok out := by
   have hne : scripts ≠ [] := by intro h0; subst h0; simp at hn1
   obtain ⟨root, hb, _, hidx, _⟩ := buildTree_spec cx scripts hne
   have hctl : ∃ ctl, controlTail internal root sel = .ok ctl := by
@@ -879,11 +903,262 @@ theorem tap_run_ok (cx : Tap.Ctx) (bech : String → Nat → Bytes → String) (
   | none => rw [htq] at htw; cases htw
   | some qo =>
     obtain ⟨q, odd⟩ := qo
-    refine ⟨finish bech hrp scripts root.hash (cx.taggedHash "TapTweak" (internal ++ root.hash)) q odd ctl sel, ?_⟩
-    unfold run
-    rw [if_neg (by simp [hk])]
-    simp [hio, hv, hb, hctl, hx, htq]
-    exact ⟨hne, hn2⟩
+    have hbq := hb32 q
+    cases hba : bech hrp 1 q with
+    | none => rw [hba] at hbq; cases hbq
+    | some address =>
+      refine ⟨finish address scripts root.hash (cx.taggedHash "TapTweak" (internal ++ root.hash)) q odd ctl sel, ?_⟩
+      unfold run
+      rw [if_neg (by simp [hk])]
+      simp [hio, hv, hb, hctl, hx, htq, hba, spkMismatch]
+      exact ⟨hne, hn2⟩
+
+/-! ## The digest clause: the signature hash tap reports is the BIP341/342 digest of the transaction it outputs -/
+
+open Btcdeb.Proofs.TapSpend in
+theorem firstInvalid_none : ∀ (k : Nat) (scripts : List Bytes), firstInvalid k scripts = none → ∀ s ∈ scripts, hasValidOps s = true
+  | _, [], _, s, hs => by simp at hs
+  | k, a :: rest, h, s, hs => by
+    simp only [firstInvalid] at h
+    split at h
+    · next hv =>
+      simp only [List.mem_cons] at hs
+      rcases hs with rfl | hs
+      · exact hv
+      · exact firstInvalid_none (k + 1) rest h s hs
+    · cases h
+
+/-- `setWitness` on the only input -/
+theorem setWitness_single (tx : Tx) (inp : TxIn) (w : List Bytes) (hv : tx.vin = [inp]) (hw : w ≠ []) :
+    (setWitness tx 0 w).vin = [{ inp with witness := w }] := by
+  have : w.isEmpty = false := by cases w <;> simp_all
+  simp [setWitness, hv, this]
+
+/-- the BIP341 message does not contain witness data: replacing the witness of the only input leaves the digest unchanged -/
+theorem bip341Digest_setWitness (sha : Bytes → Bytes) (tx : Tx) (inp : TxIn) (w : List Bytes) (hv : tx.vin = [inp]) (hw : w ≠ [])
+    (nIn ht : Nat) (spent : List TxOut) (annex : Option Bytes) (ext : Option Spec.TapExt) :
+    Spec.bip341Digest sha (setWitness tx 0 w) nIn ht spent annex ext = Spec.bip341Digest sha tx nIn ht spent annex ext := by
+  have h1 := setWitness_single tx inp w hv hw
+  have h2 : (setWitness tx 0 w).version = tx.version ∧ (setWitness tx 0 w).lockTime = tx.lockTime ∧ (setWitness tx 0 w).vout = tx.vout :=
+    ⟨rfl, rfl, rfl⟩
+  unfold Spec.bip341Digest Spec.bip341SigMsg
+  rw [h1, h2.1, h2.2.1, h2.2.2, hv]
+  cases nIn with
+  | zero => simp only [List.getElem?_cons_zero]; cases spent[0]? <;> rfl
+  | succ n => simp
+
+/-- the first witness item tap writes: the `--sig` signature, else the placeholder -/
+def firstItem (premadeSig : Bytes) : Bytes := if premadeSig.length ≠ 0 then premadeSig else placeholderSignature
+
+theorem txWitness_eq (premadeSig : Bytes) (o : Output) : txWitness premadeSig o = firstItem premadeSig :: o.witness := rfl
+
+/-- BIP342 extension of the message for the spent leaf (key version 0, no OP_CODESEPARATOR executed: tap forces the position
+    to 0xffffffff), none for the key path -/
+def extOf (o : TapOracle) (scripts : List Bytes) (sel : Option (Nat × List Bytes)) : Option Spec.TapExt :=
+  match sel with
+  | none => none
+  | some (i, _) => some { leafHash := tapLeafHash o 0xc0 (scripts.getD i []), codesepPos := 0xFFFFFFFF }
+
+/-- **Digest.**  Let `tap` succeed on (internal key, scripts, selection) with `--tx`/`--txin` given, where the spending
+    transaction has ONE input (with an empty scriptSig) and the output it spends is the P2TR output `OP_1 <output key>` of
+    the address tap prints; the `--sig` signature (if any) is at most 520 bytes and the spend arguments are fewer than 1000
+    items of at most 520 bytes (the limits `configure_tx_txin` enforces on the witness).  Then `configure_tx_txin` accepts
+    the transaction tap builds, and the signature hash tap reports is the BIP341 digest (hash type 0x00, no annex) of the
+    transaction tap outputs, with all spent outputs = that one output: the key path message when no leaf is selected, the
+    BIP342 script path message for the selected leaf (TapLeaf hash of the printed script, key version 0, code separator
+    position 0xffffffff) otherwise.  `runTx` = the whole run: it returns exactly this digest and this transaction. -/
+theorem tap_sighash_is_bip341 {cx : Tap.Ctx} (h32 : Hash32 cx) (hc : HashCtx) (tc : TapCtx) (o : TapOracle)
+    (hag : Btcdeb.Proofs.C05.Agree tc o) (cr : SigCrypto)
+    {bech : String → Nat → Bytes → Option String} {hrp : String} {internal : Bytes} {scripts : List Bytes}
+    {sel : Option (Nat × List Bytes)} {out : Output}
+    (tx txin : Tx) (inp : TxIn) (vout : Nat) (spent : TxOut) (premadeSig : Bytes)
+    (hrun : run cx bech hrp (some spent.scriptPubKey) internal scripts sel = .ok out)
+    (hvin : tx.vin = [inp]) (hss : inp.scriptSig = []) (hspent : txin.vout[vout]? = some spent)
+    (hspk : spent.scriptPubKey = 0x51 :: 0x20 :: out.outputKey) (hkl : out.outputKey.length = 32)
+    (hsig : premadeSig.length ≤ 520)
+    (hargs : ∀ i a, sel = some (i, a) → a.length < 1000 ∧ ∀ x ∈ a, x.length ≤ 520) :
+    calcSighash hc tc cr (setWitness tx 0 (txWitness premadeSig out)) txin 0 vout =
+        .ok (Spec.bip341Digest cr.sha256 (setWitness tx 0 (txWitness premadeSig out)) 0 0x00 [spent] none (extOf o scripts sel)) ∧
+    runTx cx hc tc cr bech hrp tx txin 0 vout premadeSig internal scripts sel =
+        .ok { out := out,
+              sighash := Spec.bip341Digest cr.sha256 (setWitness tx 0 (txWitness premadeSig out)) 0 0x00 [spent] none (extOf o scripts sel),
+              tx := setWitness tx 0 (txWitness premadeSig out) } := by
+  have hfl : (firstItem premadeSig).length ≤ 520 := by
+    unfold firstItem; split
+    · exact hsig
+    · simp [placeholderSignature]
+  have hwne : txWitness premadeSig out ≠ [] := by simp [txWitness_eq]
+  have hv' := setWitness_single tx inp _ hvin hwne
+  have hcalc : calcSighash hc tc cr (setWitness tx 0 (txWitness premadeSig out)) txin 0 vout =
+      .ok (Spec.bip341Digest cr.sha256 (setWitness tx 0 (txWitness premadeSig out)) 0 0x00 [spent] none (extOf o scripts sel)) := by
+    obtain ⟨root, ctl, q, odd, address, hk, hn1, hn2, _, hvalid, hb, hctl, _, ht, _, _, hout⟩ := run_inv hrun
+    cases sel with
+    | none =>
+      have hw : out.witness = [] := by rw [hout]; rfl
+      exact TapSpend.M.calcSighash_keypath hc tc cr _ txin { inp with witness := txWitness premadeSig out } vout spent
+        out.outputKey (firstItem premadeSig) hv' hss (by simp [txWitness_eq, hw]) hspent hspk hkl
+    | some s =>
+      obtain ⟨i, args⟩ := s
+      obtain ⟨path, hp, rfl⟩ := controlTail_sel_inv hctl
+      have hne : scripts ≠ [] := by intro h0; subst h0; simp at hn1
+      obtain ⟨root', hb', hw, _, hh⟩ := buildTree_spec cx scripts hne
+      rw [hb] at hb'; cases hb'
+      have hall := prove_all32 h32 i hw hp
+      obtain ⟨hlen, _, _, _⟩ := control_shape (controlByte odd) internal path hk hall
+      have hpl : path.length ≤ 128 :=
+        Nat.le_trans (prove_length_le i hp) (Nat.le_trans (hh 10 (by simpa using hn2)) (by decide))
+      obtain ⟨ha1, ha2⟩ := hargs i args rfl
+      have hi : i < scripts.length := by
+        obtain ⟨s, hs, _⟩ := prove_chain (agree_oracleOf cx) i hw hp
+        exact (List.getElem?_eq_some_iff.mp hs).1
+      have hvo : hasValidOps (scripts.getD i []) = true := by
+        apply firstInvalid_none 0 scripts hvalid
+        simp [List.getD, List.getElem?_eq_getElem hi]
+      have hwit : out.witness = args ++ [scripts.getD i [], controlByte odd :: (internal ++ path.flatten)] := by rw [hout]; rfl
+      have hq : out.outputKey = q := by rw [hout]; rfl
+      have hleaf := (Btcdeb.Proofs.C05.C05_leaf_hash tc o hag (controlByte odd :: (internal ++ path.flatten)) out.outputKey (scripts.getD i [])).1
+      have hcb : ((controlByte odd :: (internal ++ path.flatten)).headD 0).toNat - ((controlByte odd :: (internal ++ path.flatten)).headD 0).toNat % 2 = 0xc0 := by
+        simp only [List.headD_cons]; cases odd <;> rfl
+      simp only [hcb] at hleaf
+      have := TapSpend.M.calcSighash_scriptpath hc tc cr _ txin { inp with witness := txWitness premadeSig out } vout spent
+        out.outputKey (firstItem premadeSig :: args) (scripts.getD i []) (controlByte odd :: (internal ++ path.flatten))
+        hv' hss (by simp [txWitness_eq, hwit]) hspent hspk hkl path.length hlen hpl
+        (by cases odd <;> simp [byteAt, controlByte]) (by simp; omega)
+        (by intro x hx; simp only [List.mem_cons] at hx; rcases hx with rfl | hx; exact hfl; exact ha2 x hx) hvo
+      rw [this, hleaf]; rfl
+  refine ⟨hcalc, ?_⟩
+  unfold runTx
+  rw [TapSpend.M.getD_of_getElem? _ _ _ hspent, hrun]
+  simp only [hcalc]
+
+/-- **The documented limitation.**  With any other number of inputs in the spending transaction tap cannot report a
+    signature hash: either `configure_tx_txin` refuses the transaction, or `PrecomputedTransactionData::Init`, which
+    `calc_sighash` calls with the single spent output it knows, dies on `assert(m_spent_outputs.size() == txTo.vin.size())`. -/
+theorem tap_sighash_multi_input_aborts (hc : HashCtx) (tc : TapCtx) (cr : SigCrypto) (tx txin : Tx) (idx vout : Nat)
+    (w : List Bytes) (hn : tx.vin.length ≠ 1) :
+    calcSighash hc tc cr (setWitness tx idx w) txin idx vout = .error .configure ∨
+    calcSighash hc tc cr (setWitness tx idx w) txin idx vout =
+      .error (.step (.abnormal "assert(m_spent_outputs.size() == txTo.vin.size())")) := by
+  have hl : (setWitness tx idx w).vin.length ≠ 1 := by simpa [setWitness] using hn
+  unfold calcSighash
+  cases configureTxTxin hc tc (setWitness tx idx w) txin idx vout _ with
+  | none => exact Or.inl rfl
+  | some c =>
+    right
+    simp only
+    rw [Btcdeb.Proofs.Sighash.calcSighashTxData_multi_input_aborts cr _ _ _ hl]
+
+/-! ## The round trip clause: a signature over the reported digest, passed back with --sig, gives a transaction that validates -/
+
+/-- the signature primitives of the specification as the model's `SigCrypto` -/
+def crOf (p : Spec.Prims) : SigCrypto := { sha256 := p.sha256, ecdsaVerify := p.ecdsaVerify, schnorrVerify := p.schnorrVerify }
+
+/-- **Round trip, key path.**  Run tap without a selected leaf on a single-input transaction spending the P2TR output of
+    the printed address (placeholder signature); take any 64-byte `sig` that verifies under the printed output key over the
+    signature hash tap reported; run tap again with `--sig=sig`.  The transaction it then outputs carries the witness
+    `[sig]`, and that input validates under Bitcoin's rules (`Spec.verifyScript` with the BIP341 signature oracle of this
+    transaction and spent output) for every flag set containing WITNESS and TAPROOT.
+    (`toBool outputKey`: the key is not all zero, which holds for every point of the curve; stated because `Tap.Ctx` is abstract.) -/
+theorem tap_roundtrip_keypath {cx : Tap.Ctx} (h32 : Hash32 cx) (hc : HashCtx) (tc : TapCtx) (o : TapOracle)
+    (hag : Btcdeb.Proofs.C05.Agree tc o) (p : Spec.Prims) (flags : Nat)
+    {bech : String → Nat → Bytes → Option String} {hrp : String} {internal : Bytes} {scripts : List Bytes} {out : Output}
+    (tx txin : Tx) (inp : TxIn) (vout : Nat) (spent : TxOut) (sig : Bytes)
+    (hrun : run cx bech hrp (some spent.scriptPubKey) internal scripts none = .ok out)
+    (hvin : tx.vin = [inp]) (hss : inp.scriptSig = []) (hspent : txin.vout[vout]? = some spent)
+    (hspk : spent.scriptPubKey = 0x51 :: 0x20 :: out.outputKey) (hkl : out.outputKey.length = 32)
+    (hnz : Spec.toBool out.outputKey = true)
+    (hw : hasFlag flags Flag.WITNESS = true) (ht : hasFlag flags Flag.TAPROOT = true) (hsl : sig.length = 64) :
+    ∃ r1, runTx cx hc tc (crOf p) bech hrp tx txin 0 vout [] internal scripts none = .ok r1 ∧
+      (p.schnorrVerify out.outputKey r1.sighash sig = true →
+        ∃ r2, runTx cx hc tc (crOf p) bech hrp tx txin 0 vout sig internal scripts none = .ok r2 ∧
+          r2.tx.vin = [{ inp with witness := [sig] }] ∧
+          Spec.verifyScript (Spec.spendCtx p r2.tx 0 spent.value [spent]) flags inp.scriptSig spent.scriptPubKey [sig] = .ok ()) := by
+  have hno : ∀ i a, (none : Option (Nat × List Bytes)) = some (i, a) → a.length < 1000 ∧ ∀ x ∈ a, x.length ≤ 520 := by
+    intro i a h; cases h
+  obtain ⟨_, h1⟩ := tap_sighash_is_bip341 h32 hc tc o hag (crOf p) tx txin inp vout spent [] hrun hvin hss hspent hspk hkl (by simp) hno
+  obtain ⟨_, h2⟩ := tap_sighash_is_bip341 h32 hc tc o hag (crOf p) tx txin inp vout spent sig hrun hvin hss hspent hspk hkl (by omega) hno
+  refine ⟨_, h1, ?_⟩
+  intro hver
+  refine ⟨_, h2, ?_, ?_⟩
+  · obtain ⟨root, ctl, q, odd, address, _, _, _, _, _, _, _, _, _, _, _, hout⟩ := run_inv hrun
+    have hwit : out.witness = [] := by rw [hout]; rfl
+    have : txWitness sig out = [sig] := by simp [txWitness, hwit, hsl]
+    rw [this]
+    exact setWitness_single tx inp [sig] hvin (by simp)
+  · obtain ⟨root, ctl, q, odd, address, _, _, _, _, _, _, _, _, _, _, _, hout⟩ := run_inv hrun
+    have hwit : out.witness = [] := by rw [hout]; rfl
+    have hne1 : txWitness [] out ≠ [] := by simp [txWitness_eq]
+    have hne2 : txWitness sig out ≠ [] := by simp [txWitness_eq]
+    simp only [extOf] at hver
+    rw [show (crOf p).sha256 = p.sha256 from rfl, bip341Digest_setWitness _ tx inp _ hvin hne1] at hver
+    rw [hss, hspk]
+    apply TapSpend.S.keypath_roundtrip p flags _ spent out.outputKey sig hw ht hkl hnz hsl
+    rw [bip341Digest_setWitness _ tx inp _ hvin hne2]
+    exact hver
+
+/-- **Round trip, script path**, for a leaf of the form `<32-byte key k> OP_CHECKSIG` spent without further arguments: the
+    same statement, with `sig` verifying under `k` over the reported (BIP342) signature hash; the transaction tap then
+    outputs carries the witness `[sig, script, control block]` and validates. -/
+theorem tap_roundtrip_scriptpath {cx : Tap.Ctx} (h32 : Hash32 cx) (hc : HashCtx) (tc : TapCtx) (p : Spec.Prims)
+    (hagt : Btcdeb.Proofs.C05.Agree tc p.tap) (hagc : Agree cx p.tap) (flags : Nat)
+    {bech : String → Nat → Bytes → Option String} {hrp : String} {internal : Bytes} {scripts : List Bytes} {out : Output}
+    (tx txin : Tx) (inp : TxIn) (vout : Nat) (spent : TxOut) (i : Nat) (k sig : Bytes)
+    (hrun : run cx bech hrp (some spent.scriptPubKey) internal scripts (some (i, [])) = .ok out)
+    (hleaf : scripts[i]? = some (0x20 :: (k ++ [0xac]))) (hk : k.length = 32)
+    (hvin : tx.vin = [inp]) (hss : inp.scriptSig = []) (hspent : txin.vout[vout]? = some spent)
+    (hspk : spent.scriptPubKey = 0x51 :: 0x20 :: out.outputKey) (hkl : out.outputKey.length = 32)
+    (hnz : Spec.toBool out.outputKey = true)
+    (hw : hasFlag flags Flag.WITNESS = true) (ht : hasFlag flags Flag.TAPROOT = true) (hsl : sig.length = 64) :
+    ∃ r1, runTx cx hc tc (crOf p) bech hrp tx txin 0 vout [] internal scripts (some (i, [])) = .ok r1 ∧
+      (p.schnorrVerify k r1.sighash sig = true →
+        ∃ r2 control, runTx cx hc tc (crOf p) bech hrp tx txin 0 vout sig internal scripts (some (i, [])) = .ok r2 ∧
+          out.control = some control ∧
+          r2.tx.vin = [{ inp with witness := [sig, 0x20 :: (k ++ [0xac]), control] }] ∧
+          Spec.verifyScript (Spec.spendCtx p r2.tx 0 spent.value [spent]) flags inp.scriptSig spent.scriptPubKey
+            [sig, 0x20 :: (k ++ [0xac]), control] = .ok ()) := by
+  have hno : ∀ j a, (some (i, ([] : List Bytes)) : Option (Nat × List Bytes)) = some (j, a) → a.length < 1000 ∧ ∀ x ∈ a, x.length ≤ 520 := by
+    intro j a h; cases h; simp
+  obtain ⟨_, h1⟩ := tap_sighash_is_bip341 h32 hc tc p.tap hagt (crOf p) tx txin inp vout spent [] hrun hvin hss hspent hspk hkl (by simp) hno
+  obtain ⟨_, h2⟩ := tap_sighash_is_bip341 h32 hc tc p.tap hagt (crOf p) tx txin inp vout spent sig hrun hvin hss hspent hspk hkl (by omega) hno
+  obtain ⟨control, script, hctl, hscr, hsi, hwit, _, hvalid⟩ := tap_control_verifies hagc h32 hrun
+  have hscript : script = 0x20 :: (k ++ [0xac]) := by rw [hleaf] at hsi; cases hsi; rfl
+  subst hscript
+  have hgd : scripts.getD i [] = 0x20 :: (k ++ [0xac]) := by simp [List.getD, hleaf]
+  refine ⟨_, h1, ?_⟩
+  intro hver
+  have hwit' : txWitness sig out = [sig, 0x20 :: (k ++ [0xac]), control] := by simp [txWitness, hwit, hsl]
+  refine ⟨_, control, h2, hctl, ?_, ?_⟩
+  · rw [hwit']; exact setWitness_single tx inp _ hvin (by simp)
+  · have hne1 : txWitness [] out ≠ [] := by simp [txWitness_eq]
+    have hne2 : txWitness sig out ≠ [] := by simp [txWitness_eq]
+    simp only [extOf, hgd] at hver
+    rw [show (crOf p).sha256 = p.sha256 from rfl, bip341Digest_setWitness _ tx inp _ hvin hne1] at hver
+    have hc0 : (control.headD 0).toNat = 0xc0 ∨ (control.headD 0).toNat = 0xc1 := by
+      obtain ⟨root, ctl, q, odd, address, _, _, _, _, _, _, _, _, _, _, _, hout⟩ := run_inv hrun
+      rw [hout] at hctl; simp only [finish, Option.some.injEq] at hctl
+      rw [← hctl]; cases odd <;> simp [controlByte]
+    rw [hss, hspk]
+    apply TapSpend.S.scriptpath_roundtrip p flags _ spent out.outputKey k sig control hw ht hkl hnz hk hsl hc0 hvalid
+    rw [bip341Digest_setWitness _ tx inp _ hvin hne2]
+    exact hver
+
+/-- the check against the input transaction does not change the result: a run without transactions that succeeds also
+    succeeds, with the same output, when the spent scriptPubKey ends with the output key -/
+theorem run_with_spk {cx : Tap.Ctx} {bech : String → Nat → Bytes → Option String} {hrp : String} {internal : Bytes}
+    {scripts : List Bytes} {sel : Option (Nat × List Bytes)} {out : Output}
+    (h : run cx bech hrp none internal scripts sel = .ok out) (s : Bytes) (hm : spkMatches s out.outputKey = true) :
+    run cx bech hrp (some s) internal scripts sel = .ok out := by
+  obtain ⟨root, ctl, q, odd, address, hk, hn1, hn2, hio, hv, hb, hctl, hx, htq, _, hba, hout⟩ := run_inv h
+  have hq : out.outputKey = q := by rw [hout]; cases sel <;> rfl
+  rw [hq] at hm
+  have hne : scripts ≠ [] := by intro h0; subst h0; simp at hn1
+  unfold run
+  rw [if_neg (by simp [hk])]
+  simp [hio, hv, hb, hctl, hx, htq, hba, spkMismatch, hm, hout]
+  exact ⟨hne, hn2⟩
+
+theorem spkMatches_p2tr (key : Bytes) (hk : key.length = 32) : spkMatches (0x51 :: 0x20 :: key) key = true := by
+  simp [spkMatches, hk]
 
 /-! ## The concrete instance: SHA-256 and secp256k1 as linked into `tap` and `btcdeb` -/
 
@@ -909,29 +1184,74 @@ theorem glue_agreeTce : AgreeTce Tap.glueCtx Glue.tapCtx := by
   simp [hpt]
 
 /-- C06 for the functions the tools are linked with: no hypothesis left but a successful run -/
-theorem tap_control_verifies_concrete {bech : String → Nat → Bytes → String} {hrp : String} {internal : Bytes}
+theorem tap_control_verifies_concrete {bech : String → Nat → Bytes → Option String} {hrp : String} {spk : Option Bytes} {internal : Bytes}
     {scripts : List Bytes} {i : Nat} {args : List Bytes} {out : Output}
-    (h : run Tap.glueCtx bech hrp internal scripts (some (i, args)) = .ok out) :
+    (h : run Tap.glueCtx bech hrp spk internal scripts (some (i, args)) = .ok out) :
     ∃ control script, out.control = some control ∧ out.script = some script ∧ scripts[i]? = some script ∧
-      out.witness = args ++ [script, control] ∧ out.address = bech hrp 1 out.outputKey ∧
+      out.witness = args ++ [script, control] ∧ bech hrp 1 out.outputKey = some out.address ∧
       bip341Valid Glue.tapOracle control script out.outputKey = true :=
   tap_control_verifies glue_agree glue_hash32 h
 
-theorem tap_accepted_by_debugger_concrete {bech : String → Nat → Bytes → String} {hrp : String} {internal : Bytes}
+theorem tap_accepted_by_debugger_concrete {bech : String → Nat → Bytes → Option String} {hrp : String} {spk : Option Bytes} {internal : Bytes}
     {scripts : List Bytes} {i : Nat} {args : List Bytes} {out : Output}
-    (h : run Tap.glueCtx bech hrp internal scripts (some (i, args)) = .ok out) :
+    (h : run Tap.glueCtx bech hrp spk internal scripts (some (i, args)) = .ok out) :
     ∃ control script, out.control = some control ∧ out.script = some script ∧
       ∀ fuel, (control.length - 33) / 32 < fuel →
         tceRun Glue.tapCtx fuel (Tce.init Glue.tapCtx control out.outputKey script) = .done :=
   tap_accepted_by_debugger glue_agreeTce glue_hash32 h
 
-theorem tap_address_is_bip341_output_key_concrete {bech : String → Nat → Bytes → String} {hrp : String} {internal : Bytes}
+theorem tap_address_is_bip341_output_key_concrete {bech : String → Nat → Bytes → Option String} {hrp : String} {spk : Option Bytes} {internal : Bytes}
     {scripts : List Bytes} {sel : Option (Nat × List Bytes)} {out : Output}
-    (h : run Tap.glueCtx bech hrp internal scripts sel = .ok out) :
+    (h : run Tap.glueCtx bech hrp spk internal scripts sel = .ok out) :
     ∃ tree : TapTree, tree.leaves = scripts.map (fun s => (0xc0, s)) ∧ tree.height ≤ 10 ∧ out.root = tree.root Glue.tapOracle ∧
       isOutputKey Glue.tapOracle internal (tree.root Glue.tapOracle) out.outputKey out.odd = true ∧
-      out.address = bech hrp 1 out.outputKey :=
+      bech hrp 1 out.outputKey = some out.address :=
   tap_address_is_bip341_output_key glue_agree h
+
+theorem natToBytesBELoop_length : ∀ (len n : Nat) (acc : Bytes), (Crypto.natToBytesBELoop len n acc).length = len + acc.length
+  | 0, _, _ => by simp [Crypto.natToBytesBELoop]
+  | len + 1, n, acc => by simp [Crypto.natToBytesBELoop, natToBytesBELoop_length len]; omega
+
+/-- the output key libsecp256k1 serialises is 32 bytes -/
+theorem glue_outputKey_length {p t q : Bytes} {odd : Bool} (h : Tap.glueCtx.tweakAdd p t = some (q, odd)) : q.length = 32 := by
+  simp only [Tap.glueCtx, Option.map_eq_some_iff, Prod.mk.injEq] at h
+  obtain ⟨pt, hpt, rfl, _⟩ := h
+  cases pt with
+  | infinity =>
+    exfalso
+    unfold Crypto.xonlyTweakAdd at hpt
+    cases hp : Crypto.parseXOnly p with
+    | none => simp [hp] at hpt
+    | some pk =>
+      simp only [hp] at hpt
+      split at hpt
+      · cases hpt
+      · cases hm : Crypto.pointMulAdd2 1 pk (Crypto.bytesToNatBE t) Crypto.G with
+        | infinity => simp [hm] at hpt
+        | affine x y => simp [hm] at hpt
+  | affine x y => simp [Crypto.xonlyBytes, Crypto.natToBytesBE, natToBytesBELoop_length]
+
+/-- the digest clause for the functions the tools are linked with (SHA-256, secp256k1, `Glue.tapCtx`) -/
+theorem tap_sighash_is_bip341_concrete
+    {bech : String → Nat → Bytes → Option String} {hrp : String} {internal : Bytes} {scripts : List Bytes}
+    {sel : Option (Nat × List Bytes)} {out : Output}
+    (tx txin : Tx) (inp : TxIn) (vout : Nat) (spent : TxOut) (premadeSig : Bytes)
+    (hrun : run Tap.glueCtx bech hrp (some spent.scriptPubKey) internal scripts sel = .ok out)
+    (hvin : tx.vin = [inp]) (hss : inp.scriptSig = []) (hspent : txin.vout[vout]? = some spent)
+    (hspk : spent.scriptPubKey = 0x51 :: 0x20 :: out.outputKey)
+    (hsig : premadeSig.length ≤ 520)
+    (hargs : ∀ i a, sel = some (i, a) → a.length < 1000 ∧ ∀ x ∈ a, x.length ≤ 520) :
+    runTx Tap.glueCtx Tap.glueHashCtx Glue.tapCtx stdCrypto bech hrp tx txin 0 vout premadeSig internal scripts sel =
+        .ok { out := out,
+              sighash := Spec.bip341Digest Crypto.sha256 (setWitness tx 0 (txWitness premadeSig out)) 0 0x00 [spent] none
+                           (extOf Glue.tapOracle scripts sel),
+              tx := setWitness tx 0 (txWitness premadeSig out) } := by
+  have hkl : out.outputKey.length = 32 := by
+    obtain ⟨root, ctl, q, odd, address, _, _, _, _, _, _, _, _, htq, _, _, hout⟩ := run_inv hrun
+    have : out.outputKey = q := by rw [hout]; cases sel <;> rfl
+    rw [this]; exact glue_outputKey_length htq
+  exact (tap_sighash_is_bip341 glue_hash32 Tap.glueHashCtx Glue.tapCtx Glue.tapOracle Btcdeb.Proofs.C05.glue_agree stdCrypto
+    tx txin inp vout spent premadeSig hrun hvin hss hspent hspk hkl hsig hargs).2
 
 /-! ## The hypotheses are satisfiable together, non-trivially -/
 
@@ -946,7 +1266,7 @@ theorem toy_hash32 : Hash32 toyCtx := fun _ _ => by simp [toyCtx]
 /-- five scripts (two equal, one empty), the leftover one spent with one argument: the tool succeeds and its output
     verifies under BIP341 and in the debugger's check -/
 example : ∃ out control script,
-    run toyCtx (fun _ _ _ => "") "bcrt" (List.replicate 32 7) [[0x51], [], [0x52, 0x53], [0x51], [0x54]] (some (4, [[1]])) = .ok out ∧
+    run toyCtx (fun _ _ _ => some "") "bcrt" none (List.replicate 32 7) [[0x51], [], [0x52, 0x53], [0x51], [0x54]] (some (4, [[1]])) = .ok out ∧
     out.control = some control ∧ out.script = some script ∧ script = [0x54] ∧ out.witness = [[1], script, control] ∧
     bip341Valid (oracleOf toyCtx) control script out.outputKey = true ∧
     tceRun ⟨toyCtx.taggedHash, fun q p k odd => toyCtx.tweakAdd p (toyCtx.taggedHash "TapTweak" (p ++ k)) == some (q, odd)⟩ 4
@@ -966,9 +1286,9 @@ example : ∃ out control script,
       rw [if_neg (by simp [Gen.MAX_OPCODE, Gen.MAX_SCRIPT_ELEMENT_SIZE]; omega)]
       exact hr
     simp [firstInvalid, e1, e2]
-  obtain ⟨out, hrun⟩ := tap_run_ok toyCtx (fun _ _ _ => "") "bcrt" (List.replicate 32 7)
+  obtain ⟨out, hrun⟩ := tap_run_ok toyCtx (fun _ _ _ => some "") "bcrt" (List.replicate 32 7)
     [[0x51], [], [0x52, 0x53], [0x51], [0x54]] (some (4, [[1]])) (by simp) (by simp) (by simp)
-    (by intro i a h; cases h; simp) hv rfl (fun _ => rfl)
+    (by intro i a h; cases h; simp) hv rfl (fun _ => rfl) (fun _ => rfl)
   obtain ⟨control, script, hc, hs, hsi, hw, _, hvalid⟩ := tap_control_verifies (agree_oracleOf toyCtx) toy_hash32 hrun
   have hag : AgreeTce toyCtx ⟨toyCtx.taggedHash, fun q p k odd => toyCtx.tweakAdd p (toyCtx.taggedHash "TapTweak" (p ++ k)) == some (q, odd)⟩ :=
     ⟨fun _ _ => rfl, fun p k q odd h => by simp [h]⟩
@@ -979,7 +1299,7 @@ example : ∃ out control script,
   refine ⟨out, control, script, hrun, hc, hs, hscript, by simpa using hw, hvalid, ?_⟩
   apply hdone
   -- the path of leaf 4 in ((0 1) ((2 3) 4)) has two entries
-  obtain ⟨root, ctl, q, odd, hk, _, _, _, _, hb, hctl, _, _, hout⟩ := run_inv hrun
+  obtain ⟨root, ctl, q, odd, address, hk, _, _, _, _, hb, hctl, _, _, _, _, hout⟩ := run_inv hrun
   obtain ⟨path, hp, rfl⟩ := controlTail_sel_inv hctl
   obtain ⟨root', hb', hwf, _, hh⟩ := buildTree_spec toyCtx [[0x51], [], [0x52, 0x53], [0x51], [0x54]] (by simp)
   rw [hb] at hb'; cases hb'
@@ -988,5 +1308,55 @@ example : ∃ out control script,
   obtain ⟨hlen, _, _, _⟩ := control_shape (controlByte odd) (List.replicate 32 7) path hk hall
   rw [hout] at hc; simp only [finish] at hc; cases hc
   rw [hlen]; omega
+
+
+/-- the same five scripts with `--tx`/`--txin`: a one-input transaction spending the P2TR output of the printed key; the run
+    succeeds and reports the BIP342 digest of the transaction it outputs -/
+example : ∃ out tx txin r,
+    run toyCtx (fun _ _ _ => some "") "bcrt" none (List.replicate 32 7) [[0x51], [], [0x52, 0x53], [0x51], [0x54]] (some (4, [[1]])) = .ok out ∧
+    tx.vin.length = 1 ∧ (txin.vout.map (·.scriptPubKey)) = [0x51 :: 0x20 :: out.outputKey] ∧
+    runTx toyCtx ⟨fun b => b, fun b => b, fun b => b⟩
+      ⟨toyCtx.taggedHash, fun q p k odd => toyCtx.tweakAdd p (toyCtx.taggedHash "TapTweak" (p ++ k)) == some (q, odd)⟩
+      ⟨fun b => b.take 32, fun _ _ _ => false, fun _ _ _ => false⟩ (fun _ _ _ => some "") "bcrt" tx txin 0 0 []
+      (List.replicate 32 7) [[0x51], [], [0x52, 0x53], [0x51], [0x54]] (some (4, [[1]])) = .ok r ∧
+    r.out = out ∧ (r.tx.vin.map (·.witness)) = [txWitness [] out] ∧
+    r.sighash = Spec.bip341Digest (fun b => b.take 32) r.tx 0 0 txin.vout none
+      (some { leafHash := tapLeafHash (oracleOf toyCtx) 0xc0 [0x54], codesepPos := 0xFFFFFFFF }) := by
+  have hv : firstInvalid 0 [[0x51], [], [0x52, 0x53], [0x51], [0x54]] = none := by
+    have e1 : hasValidOps [] = true := by rw [hasValidOps]; simp [getOp]
+    have e2 : ∀ b : UInt8, b.toNat = 0x51 ∨ b.toNat = 0x52 ∨ b.toNat = 0x53 ∨ b.toNat = 0x54 → ∀ r, hasValidOps r = true →
+        hasValidOps (b :: r) = true := by
+      intro b hb r hr
+      rw [hasValidOps]
+      have : getOp (b :: r) = some { opcode := b.toNat, data := [], rest := r } := by
+        simp only [getOp, Op.OP_PUSHDATA4]
+        rw [if_neg (by omega)]
+      rw [this]
+      simp only [List.length_nil]
+      rw [if_neg (by simp [Gen.MAX_OPCODE, Gen.MAX_SCRIPT_ELEMENT_SIZE]; omega)]
+      exact hr
+    simp [firstInvalid, e1, e2]
+  obtain ⟨out, hrun⟩ := tap_run_ok toyCtx (fun _ _ _ => some "") "bcrt" (List.replicate 32 7)
+    [[0x51], [], [0x52, 0x53], [0x51], [0x54]] (some (4, [[1]])) (by simp) (by simp) (by simp)
+    (by intro i a h; cases h; simp) hv rfl (fun _ => rfl) (fun _ => rfl)
+  have hkl : out.outputKey.length = 32 := by
+    obtain ⟨root, ctl, q, odd, address, _, _, _, _, _, _, _, _, htq, _, _, hout⟩ := run_inv hrun
+    have : out.outputKey = q := by rw [hout]; rfl
+    rw [this]
+    simp only [toyCtx, Option.some.injEq, Prod.mk.injEq] at htq
+    rw [← htq.1]; simp
+  let inp : TxIn := { prevout := ⟨List.replicate 32 1, 0⟩, scriptSig := [], sequence := 0xfffffffd, witness := [] }
+  let tx : Tx := { version := 2, vin := [inp], vout := [⟨900, [0x51]⟩], lockTime := 0 }
+  let spent : TxOut := ⟨1000, 0x51 :: 0x20 :: out.outputKey⟩
+  let txin : Tx := { version := 2, vin := [], vout := [spent], lockTime := 0 }
+  have hrun' := run_with_spk hrun spent.scriptPubKey (spkMatches_p2tr _ hkl)
+  have hag : Btcdeb.Proofs.C05.Agree
+      ⟨toyCtx.taggedHash, fun q p k odd => toyCtx.tweakAdd p (toyCtx.taggedHash "TapTweak" (p ++ k)) == some (q, odd)⟩ (oracleOf toyCtx) :=
+    ⟨fun _ _ => rfl, fun _ _ _ _ => rfl⟩
+  obtain ⟨_, h2⟩ := tap_sighash_is_bip341 toy_hash32 ⟨fun b => b, fun b => b, fun b => b⟩ _ (oracleOf toyCtx) hag
+    ⟨fun b => b.take 32, fun _ _ _ => false, fun _ _ _ => false⟩ tx txin inp 0 spent [] hrun' rfl rfl rfl rfl hkl (by simp)
+    (by intro i a h; cases h; simp)
+  refine ⟨out, tx, txin, _, hrun, rfl, rfl, h2, rfl, ?_, rfl⟩
+  simp [setWitness, tx, inp, txWitness]
 
 end Btcdeb.Proofs.C06
